@@ -1681,7 +1681,10 @@ def _vector_binary_op(
                 left_shape=len(left_exprs),
                 right_shape=len(arr),
             )
-        right_exprs = [Constant(val) for val in arr]
+        # elements that already are expressions (variables, parameters) are used as they are
+        right_exprs = [
+            val if isinstance(val, Expression) else Constant(val) for val in arr
+        ]
     else:
         raise InvalidOperationError(
             operation=f"vector {op}",
